@@ -66,6 +66,19 @@ def check(env, rep, tier):
                     nxt = b["blocks"][t["t"]]["term"] if t["t"] is not None else {}
                     nr = (nxt.get("resolved") or nxt.get("callee") or {}).get("path", "")
                     creators.append((b["path"], bb["tspan"]["l"], nr.endswith("::or_insert")))
+        # ... or lazily, by handing the constructor itself to Entry::or_insert_with
+        for b in prog.bodies.values():
+            if b.get("promoted") or "::tests" in b["id"]:
+                continue
+            for bb in b["blocks"]:
+                t = bb["term"]
+                if bb["cleanup"] or t["k"] != "call":
+                    continue
+                r = t.get("resolved") or t.get("callee") or {}
+                if r.get("path", "").endswith("Entry::<'a, Key, Value>::or_insert_with"):
+                    gs = [prog.types[g]["s"] for g in r.get("gargs", [])]
+                    lazy_default = any("BlockState as core::default::Default>::default" in g or g.startswith("fn() -> block_handler::BlockState") for g in gs)
+                    creators.append((b["path"], bb["tspan"]["l"], lazy_default))
         rep.ob("C12.1", "state-creation", bool(creators) and all(c[2] for c in creators),
                "a BlockState is created other than as the default of the keyed map lookup: %s" % [c for c in creators if not c[2]],
                sample={"rule": "C12.1", "creation_sites": len(creators)})
